@@ -852,6 +852,8 @@ func c02(w *core.World, r *core.Report) {
 	r.Rule("R06.6", "one id for cache and bookkeeping; CONTINUE keeps the source's current id (shared with C06)", 2)
 	r.Rule("R06.10", "a full resynchronisation does not carry the target's old position over to the new replication id (shared with C06)", 2)
 	ruleSyncMetaPaths(w, r)
+	r.Rule("R10.1", "nothing is forwarded while the source is in a withheld database: the offset a forwarded item carries would move the stored position past the database switch that was withheld, and a restart resumes in the wrong database (shared with C10)", 4)
+	ruleForwardConsultsFilters(w, r)
 	r.Rule("R09.7", "the transaction mode the sender runs in is the output's CanTransaction (shared with C09)", 1)
 	if c != nil {
 		ruleTxnModeWiring(w, r, c)
